@@ -566,7 +566,7 @@ void vm_execute_func_ffi(vm * machine, bytecode * code)
                 mem_ptr rec_addr = gc_get_vec_ref(machine->collector, machine->stack[machine->sp--].addr);
                 if (rec_addr != nil_ptr)
                 {
-                    prep_vals = vm_execute_func_ffi_record_value(machine, rec_addr, bc.ffi_record.count, fd->param_types[i], rec_value, &offset);
+                    prep_vals |= vm_execute_func_ffi_record_value(machine, rec_addr, bc.ffi_record.count, fd->param_types[i], rec_value, &offset);
                 }
                 else
                 {
